@@ -100,7 +100,8 @@ class Run:
 
     def _content_fp(self, blob):
         data = content(blob.cid, blob.length, blob.ckind)
-        fp = io.BytesIO(data)
+        # one source in five behaves like a raw stream: a read may return less than was asked for (never nothing before the end)
+        fp = ShortReads(data) if (blob.id % 5 == 3 and blob.length > 700) else io.BytesIO(data)
         self.fps.append(fp)
         return fp
 
@@ -406,6 +407,13 @@ class Run:
         self.model.zero_shared = True
         self.model.classes.add('reopen')
         return 'reopen'
+
+
+class ShortReads(io.BytesIO):
+    def read(self, n=-1):
+        if n is None or n < 0 or n > 700:
+            n = 700 if (n is not None and n >= 0) else n
+        return super().read(n)
 
 
 def open_image(img, always_consistent=False):
